@@ -62,6 +62,18 @@ func (e *envoy) ztFirstRequest(s *stream) {
 			sub = []string{"*"}
 		}
 		s.sendDelta("WDS", sub, nil, nonce, initial)
+		if hasWads(e) {
+			// the Authorization type: a wildcard subscription too; what is retained is reported by name (the
+			// resources carry no version)
+			var held map[string]string
+			if len(e.held["WADS"]) > 0 {
+				held = map[string]string{}
+				for n := range e.held["WADS"] {
+					held[n] = ""
+				}
+			}
+			s.sendDelta("WADS", sub, nil, "", held)
+		}
 		return
 	}
 	// on-demand: subscribe to and unsubscribe from "*" (= not wildcard), plus the names wanted
@@ -146,9 +158,44 @@ func contains(xs []string, x string) bool {
 // ---------------------------------------------------------------- grammar
 
 var (
-	ztPods = []string{"p1", "p2", "p3", "p4", "p5"}
-	ztSvcs = []string{"s1", "s2"}
+	ztPods  = []string{"p1", "p2", "p3", "p4", "p5"}
+	ztSvcs  = []string{"s1", "s2"}
+	ztAuthz = []string{"az1", "az2", "az3"}
+
+	// ztWads: the ztunnel clients that also subscribe to the Authorization type (wildcard), as a real ztunnel does:
+	// the clients of stream c03 (stream c05 keeps its single-type clients)
+	ztWadsMu sync.Mutex
+	ztWads   = map[*envoy]bool{}
 )
+
+func withWads(e *envoy) *envoy {
+	ztWadsMu.Lock()
+	ztWads[e] = true
+	ztWadsMu.Unlock()
+	return e
+}
+
+func hasWads(e *envoy) bool {
+	ztWadsMu.Lock()
+	defer ztWadsMu.Unlock()
+	return e != nil && ztWads[e]
+}
+
+func dropWads(es ...*envoy) {
+	ztWadsMu.Lock()
+	for _, e := range es {
+		delete(ztWads, e)
+	}
+	ztWadsMu.Unlock()
+}
+
+func genAuthz(r *wire.Rng, name string) Op {
+	o := Op{K: "authz", N: name, Mode: wire.Pick(r, []string{"ALLOW", "DENY"}), SA: wire.Pick(r, []string{"sa1", "sa2"})}
+	if r.Chance(1, 2) {
+		o.Sel = map[string]string{"app": wire.Pick(r, []string{"a", "b"})}
+	}
+	return o
+}
 
 func podIP(name string) string  { return "10.40.0." + name[1:] }
 func svcVIP(name string) string { return "10.41.0." + name[1:] }
@@ -174,10 +221,33 @@ func ztNames() []string {
 	return out
 }
 
+// ztAuthzOps: stream c03 also draws AuthorizationPolicy ops (the other streams keep their draws).
+var ztAuthzOps bool
+
 func genZtOp(r *wire.Rng, w *world, want *[]string) Op {
 	for {
 		var o Op
-		switch x := r.Intn(10); {
+		x := 0
+		if ztAuthzOps && r.Chance(1, 6) {
+			x = 100
+		} else {
+			x = r.Intn(10)
+		}
+		switch {
+		case x == 100:
+			name := wire.Pick(r, ztAuthz)
+			if old, ok := w.Authz[name]; ok {
+				if r.Chance(1, 3) {
+					o = Op{K: "authzdel", N: name}
+				} else {
+					o = genAuthz(r, name)
+					if sameOp(old, o) {
+						continue
+					}
+				}
+			} else {
+				o = genAuthz(r, name)
+			}
 		case x < 5:
 			name := wire.Pick(r, ztPods)
 			if old, ok := w.Pods[name]; ok {
@@ -252,8 +322,15 @@ func genZtBase(r *wire.Rng) []Op {
 }
 
 func genC03Zt(r *wire.Rng) *History {
+	ztAuthzOps = true
+	defer func() { ztAuthzOps = false }()
 	h := &History{Stream: "c03", Flavor: "zt", Debounce: wire.Pick(r, []int{0, 5, 20}), Explicit: r.Chance(1, 2)}
 	h.Base = genZtBase(r)
+	for _, n := range ztAuthz {
+		if r.Chance(1, 3) {
+			h.Base = append(h.Base, genAuthz(r, n))
+		}
+	}
 	w := newWorld(true)
 	for _, o := range h.Base {
 		w.note(o)
@@ -391,6 +468,34 @@ func ztIndexMatches(st *site, w *world) string {
 			return "service " + sv + " by address"
 		}
 	}
+	// the authorization policies (REAL Policies(): what the Authorization generator reads)
+	got := map[string]string{}
+	for _, p := range idx.Policies(nil) {
+		if p.Authorization == nil {
+			continue
+		}
+		principal := ""
+		for _, g := range p.Authorization.Groups {
+			for _, rl := range g.Rules {
+				for _, m := range rl.Matches {
+					for _, pr := range m.Principals {
+						principal += pr.String()
+					}
+				}
+			}
+		}
+		got[p.ResourceName()] = p.Authorization.Action.String() + " " + principal
+	}
+	for _, n := range ztAuthz {
+		o, exists := w.Authz[n]
+		desc, ok := got["default/"+n]
+		if exists != ok {
+			return "policy " + n + " presence"
+		}
+		if exists && (!strings.HasPrefix(desc, o.Mode+" ") || !strings.Contains(desc, "/sa/"+o.SA)) {
+			return "policy " + n + " content"
+		}
+	}
 	return ""
 }
 
@@ -411,6 +516,12 @@ func ztAwaitIndex(st *site, w *world) string {
 func ztCompare(st *site, stt *stats, wc, od *envoy, tag string) ([]diff, bool) {
 	fw := newZt("fresh-wildcard", "wildcard", "zt-fw-"+tag)
 	fw.explicit = wc != nil && wc.explicit
+	types := ztTypes
+	if hasWads(wc) {
+		withWads(fw)
+		defer dropWads(fw)
+		types = []string{"WDS", "WADS"}
+	}
 	fo := newZt("fresh-ondemand", "ondemand", "zt-fo-"+tag)
 	if od != nil {
 		od.mu.Lock()
@@ -443,7 +554,7 @@ func ztCompare(st *site, stt *stats, wc, od *envoy, tag string) ([]diff, bool) {
 		a := wc.snapshot()
 		stt.Comparisons++
 		stt.Compared += len(ref["WDS"])
-		for _, d := range compareHeld(a, ref, ztTypes) {
+		for _, d := range compareHeld(a, ref, types) {
 			d.Type = "wildcard:" + d.Type
 			out = append(out, d)
 		}
@@ -550,6 +661,11 @@ func untracked(st *site, od *envoy, resource string) string {
 	ztEverMu.Lock()
 	had := ztEverHeld[od][resource]
 	ztEverMu.Unlock()
+	od.mu.Lock()
+	if od.unsubbed[resource] {
+		had = false // it held the resource under its own name and unsubscribed that name: dropped by the client itself
+	}
+	od.mu.Unlock()
 	if had {
 		return ""
 	}
@@ -669,7 +785,8 @@ func runC03Zt(h *History, stt *stats) result {
 	st := newSite(w, time.Duration(h.Debounce)*time.Millisecond)
 	stt.Servers++
 	defer st.close()
-	wc := newZt("wildcard", "wildcard", "zt-w")
+	wc := withWads(newZt("wildcard", "wildcard", "zt-w"))
+	defer dropWads(wc)
 	wc.explicit = h.Explicit
 	od := newZt("ondemand", "ondemand", "zt-d")
 	wc.connect(st, connectOpts{})
